@@ -12,21 +12,31 @@ from harness.common import VERIF, drain_failures, make_orchestrator, parse_json_
 from harness.framework import Check
 
 PROP = "C18"
+PROCS = max(1, int(os.environ.get("VERIF_PROCS", "8")))   # worker processes (implementation runs) / coqc shards in flight
 FLAGS = ["q_global_on_covered", "q_prefix_without_separator", "q_path_relative_to_cwd", "q_allow_dict_unsupported",
-         "q_trailing_slash_depth", "q_rules_toplevel_ignored", "q_rules_do_not_override_file"]
+         "q_trailing_slash_depth", "q_backslash_separator", "q_rules_toplevel_ignored", "q_rules_do_not_override_file"]
 HEADER = ("From TL Require Import Lib.Base Lib.GenTypes Model.PlacementTypes Gen.PlacementGen Model.Placement "
           "Model.PlacementSource Model.PlacementRun Actual.PlacementActual.\n")
 
 # ------------------------------------------------------------------ alphabets
 DIR_KEYS = ["src", "src/api", "src/api/v1", "sr", "src2", "tests", "tests/unit", "docs", "lib", "src/ap", "/", "app",
-            "src/models", "doc", "lib/core", "t", "README", "src/api2"]
+            "src/models", "doc", "lib/core", "t", "README", "src/api2",
+            # hidden directories (the key starts with a dot), at the root and nested
+            ".github", ".github/workflows", ".config", "src/.hidden", ".g"]
 DIRS = ["", "", "src", "src", "src/api", "src/api/v1", "src2", "src/api2", "tests", "tests/unit", "docs", "lib", "lib/core",
-        "app", "src/models", "srcs/x", "testsuite", "doc", "docs/guide", "src/src"]
+        "app", "src/models", "srcs/x", "testsuite", "doc", "docs/guide", "src/src",
+        ".github", ".github/workflows", ".config", "src/.hidden", "github", "..data", ".githubx", "lib/.cache/.tmp"]
 NAMES = ["a.py", "test_a.py", "ok.py", "h_api.py", "README.md", "x.txt", "notes.tmp", "Main.PY", "index.ts", "srcfile.py",
-         "docs.md", "sr.py", "ok", "conftest.py", "b_test.py", "c.bak", "secret.txt", "t.py", "api.py", "user_model.py"]
+         "docs.md", "sr.py", "ok", "conftest.py", "b_test.py", "c.bak", "secret.txt", "t.py", "api.py", "user_model.py",
+         # dot-files
+         ".env", ".env.local", ".hidden.py", "..x.py", ".a", "ci.yml", "run.sh",
+         # a backslash is an ordinary character of a POSIX file name
+         "a\\b.py"]
 PATTERNS = [r".*\.py$", r"test_.*\.py$", r"^src/", "ok", r"\.md$", r"^[^/]+$", r".*_api\.py$", "api",
             r"^(?!src/).*\.py$", r"\.tmp$", ".*", r"^tests/", r"\.(ts|txt)$", "[A-Z]", r"^src/api/", "x^", r".*_test\.py$",
-            r"secret", r"^(src|lib)/.*\.py$", r"\.bak$", r"^[a-z_]+\.py$", r"/v1/", r"src", r"conftest\.py$"]
+            r"secret", r"^(src|lib)/.*\.py$", r"\.bak$", r"^[a-z_]+\.py$", r"/v1/", r"src", r"conftest\.py$",
+            # anchored on a leading dot / on hidden components
+            r"^\.env", r"^\.", r"(^|/)\.[^/]+$", r"^\.github/.*\.ya?ml$", r"^[^.]", r"/\."]
 BAD_PATTERNS = ["(", "[a-", "*x", "(?P<n", "a{2,1}", r"\\1(", "(?z)"]
 REASONS = ["no tests here", "Move it", "", "Python files must be in src/ or tests/", "backup file", "règle 7"]
 
@@ -75,7 +85,7 @@ def gen_case(seed: int, i: int, n_files: int):
             if keys and r.random() < 0.35:   # a child or a string-extension of a key already chosen
                 base = r.choice(keys)
                 if base != "/":
-                    k = base.rstrip("/") + r.choice(["/api", "/v1", "/core", "2", "s", "/unit", "64"])
+                    k = base.rstrip("/") + r.choice(["/api", "/v1", "/core", "2", "s", "/unit", "64", "/.cache"])
             if not k.endswith("/") and r.random() < 0.3:   # the same directory written with a trailing slash
                 k = k + "/"
             if k not in keys:
@@ -93,16 +103,20 @@ def gen_case(seed: int, i: int, n_files: int):
         k = r.random()
         if real_keys and k < 0.5:      # directories in and around the configured keys
             base = r.choice(real_keys)
-            d = r.choice([base, base, base + "/" + r.choice(["api", "v1", "sub", "unit"]), base + "2", base + "s", base + "64",
-                          base.rsplit("/", 1)[0] if "/" in base else "", base + "/" + r.choice(["api", "v1"]) + "/deep"])
+            d = r.choice([base, base, base + "/" + r.choice(["api", "v1", "sub", "unit", ".cache"]), base + "2", base + "s", base + "64",
+                          base.rsplit("/", 1)[0] if "/" in base else "", base + "/" + r.choice(["api", "v1"]) + "/deep",
+                          base[1:].lstrip("/") if len(base) > 1 else base])   # near miss: the key without its first character
         elif k < 0.62:
             d = ""
         else:
             d = r.choice(DIRS)
         name = r.choice(NAMES)
         if real_keys and not d and r.random() < 0.3:
-            name = r.choice(real_keys).split("/")[0] + r.choice(["file.py", ".py", "_notes.md", "rary.txt"])
+            name = r.choice(real_keys).split("/")[0] + r.choice(["file.py", ".py", "_notes.md", "rary.txt", "\\x.py"])
         p = (d + "/" if d else "") + name
+        if "/" in p and r.random() < 0.04:   # another file: one separator of the path is a backslash inside a name instead
+            cut = r.choice([i for i, ch in enumerate(p) if ch == "/"])
+            p = p[:cut] + "\\" + p[cut + 1:]
         if any(part in ("dist", "build", "venv", "htmlcov") for part in p.split("/")) or p.split("/")[-1] in ("src.py", "src"):
             continue   # hard-coded exclusions of the orchestrator; `src.py` would shadow the package under `python -m src.cli_main`
         if any(q.startswith(p + "/") or p.startswith(q + "/") for q in paths):
@@ -299,9 +313,10 @@ def patterns_of(cfg):
     return list(dict.fromkeys(out))
 
 
-def tabulate(case):
+def tabulate(case, norms=None):
     """the regex oracle of the case: patterns, validity per pattern (re.compile), and per file the rows
-    re.search(pattern, s, IGNORECASE) for s = project-relative path and s = path as handed over"""
+    re.search(pattern, s, IGNORECASE) for s = project-relative path, s = path as handed over, and for what the
+    implementation's PathResolver.normalize_path_string returned for either (norms, computed next to the run)"""
     pats = list(dict.fromkeys(p for c in src_cfgs(src_of(case)) for p in patterns_of(c)))
     comp, vrow = [], []
     with warnings.catch_warnings():
@@ -315,9 +330,9 @@ def tabulate(case):
                 comp.append(None)
                 vrow.append(False)
         rows = []
-        for f in case["files"]:
-            rows.append(([c is not None and c.search(relpath(f)) is not None for c in comp],
-                         [c is not None and c.search(f["rest"]) is not None for c in comp]))
+        for j, f in enumerate(case["files"]):
+            strs = [relpath(f), f["rest"]] + (list(norms[j]) if norms else [])
+            rows.append(tuple([c is not None and c.search(x) is not None for c in comp] for x in strs))
     return pats, vrow, rows
 
 
@@ -379,9 +394,11 @@ def coq_bools(bs):
 
 
 def coq_case(case, impl):
-    pats, vrow, rows = tabulate(case)
-    runs = coq.coq_list([f"({coq_file(f)}, {coq_bools(r1)}, {coq_bools(r2)}, {coq_outcome(o)})"
-                         for f, (r1, r2), o in zip(case["files"], rows, impl["outcomes"])])
+    norms = impl.get("norm") or [[relpath(f).replace("\\", "/"), f["rest"].replace("\\", "/")] for f in case["files"]]
+    pats, vrow, rows = tabulate(case, norms)
+    runs = coq.coq_list([f"({coq_file(f)}, {coq_bools(r1)}, {coq_bools(r2)}, ({s(n[0])}, {coq_bools(r3)}), ({s(n[1])}, {coq_bools(r4)}), "
+                         f"{coq_outcome(o)})"
+                         for f, (r1, r2, r3, r4), n, o in zip(case["files"], rows, norms, impl["outcomes"])])
     return (f"judge_src placement_actual placement_source_actual {coq.coq_list([s(p) for p in pats])} {coq_bools(vrow)} "
             f"{coq_src(src_of(case))} {runs}")
 
@@ -537,22 +554,38 @@ def _run_seq(item, root: Path):
     return {"steps": outs}
 
 
+def _norms(case):
+    """what the implementation's own PathResolver.normalize_path_string makes of each file's root-relative path and of
+    the path as handed over (the strings the regex tables must cover besides the paths themselves)"""
+    try:
+        from harness.common import ensure_repo_on_path
+        ensure_repo_on_path()
+        from src.linters.file_placement.path_resolver import PathResolver
+        pr = PathResolver(Path("/"))
+        return [[str(pr.normalize_path_string(Path(relpath(f)))), str(pr.normalize_path_string(Path(f["rest"])))] for f in case["files"]]
+    except Exception:  # noqa: BLE001 - a tree whose normaliser cannot be called: the documented form
+        return [[relpath(f).replace("\\", "/"), f["rest"].replace("\\", "/")] for f in case["files"]]
+
+
 def run_impl(case):
     if "seq" in case:
         with scratch_dir("tv-c18-") as d:
             root = d / "proj"
             _make_tree(root, case["seq"][0])
-            return _run_seq(case, root)
+            out = _run_seq(case, root)
+            for st, o in zip(case["seq"], out["steps"]):
+                o["norm"] = _norms(st)
+            return out
     with scratch_dir("tv-c18-") as d:
         root = d / "proj"
         _make_tree(root, case)
         if case["via"] == "api":
-            return {"outcomes": _run_api(case, root)}
+            return {"outcomes": _run_api(case, root), "norm": _norms(case)}
         if case["via"] == "api-rules":
-            return {"outcomes": _run_api(case, root, _orch_from_source(case["src"], root))}
+            return {"outcomes": _run_api(case, root, _orch_from_source(case["src"], root)), "norm": _norms(case)}
         home = d / "home"
         home.mkdir()
-        return {"outcomes": _run_cli(case, root, home)}
+        return {"outcomes": _run_cli(case, root, home), "norm": _norms(case)}
 
 
 # ------------------------------------------------------------------ judging
@@ -605,7 +638,7 @@ def _eval_shards(workdir: Path, header: str, shards, th: Path, timeout: int = 90
         if r.returncode != 0:
             raise RuntimeError(f"coqc failed on {p.name} (rc={r.returncode}): {r.stderr[-1500:]}")
         return coq.parse_nat_lists(r.stdout)
-    with ThreadPoolExecutor(max_workers=12) as ex:
+    with ThreadPoolExecutor(max_workers=PROCS) as ex:
         return list(ex.map(one, paths))
 
 
@@ -617,7 +650,7 @@ def judge(cases, impls, workdir: Path, per_shard=None, th: Path | None = None):
         chunk = list(range(st, min(len(cases), st + per_shard)))
         shards.append("\n".join(f"Eval vm_compute in ({coq_case(cases[j], impls[j])})." for j in chunk))
         index.append(chunk)
-    outs = coq.eval_shards(workdir, HEADER, shards) if th is None else _eval_shards(workdir, HEADER, shards, th)
+    outs = _eval_shards(workdir, HEADER, shards, th if th is not None else coq.TH)
     verdicts = [None] * len(cases)
     for chunk, out in zip(index, outs):
         if len(out) != len(chunk):
@@ -801,6 +834,8 @@ def run(tier: str, seed: int, replay: str | None = None) -> int:
                 "project root (rule set A, fresh Orchestrator/Linter with B, with no rules, A again; by config dict or by a .thailint.yaml "
                 "rewritten between the runs): every step must meet the specification of the CURRENT rule set")
     chk.trusted_base += [
+        "PathResolver.normalize_path_string is modelled (the string methods found in the source are interpreted by the model); the strings "
+        "it returns are also computed by calling the real function, only to extend the regex tables to them",
         "the regex engine is an oracle: the model and every theorem are parametric in `matches`/`valid`; per case the harness tabulates "
         "re.compile(p) / re.compile(p, IGNORECASE).search(path) for the finite pattern x path set and hands the tables to the model",
         "rendering of abstract rule sets to dict / JSON / YAML and of the file tree to a scratch project; pathlib's relative_to and str() "
@@ -823,7 +858,7 @@ def run(tier: str, seed: int, replay: str | None = None) -> int:
         n_src = (70 if tier == "quick" else 700) * scale
         items = (corpus_cases() + [gen_seq(seed, i, 12) for i in range(n_seq)] + [gen_src(seed, i, 10) for i in range(n_src)]
                  + gen_cases(seed, n_cfg, n_files))
-    cases, impls = flatten(items, pool_map(run_impl, items, procs=8))
+    cases, impls = flatten(items, pool_map(run_impl, items, procs=PROCS))
     import contextlib
     stack = contextlib.ExitStack()     # the scratch model directory stays alive for the shrinker
     wd = stack.enter_context(scratch_dir("tv-c18-coq-"))
@@ -889,6 +924,12 @@ def run(tier: str, seed: int, replay: str | None = None) -> int:
                 chk.dist("file:key-is-bare-string-prefix")
             if f["relative"] and f["cwd"]:
                 chk.dist("file:relative-to-subdirectory")
+            if "\\" in relpath(f):
+                chk.dist("file:backslash in a name")
+            if any(part.startswith(".") for part in relpath(f).split("/")) and not relpath(f).startswith(".thailint."):
+                chk.dist("file:dot-prefixed component" + (" (leading)" if relpath(f).startswith(".") else " (nested)"))
+                if any(part.startswith(".") for k in cov for part in k.split("/")):
+                    chk.dist("file:covered by a hidden-directory key")
             chk.dist("impl:" + ("rejected" if "rejected" in o else "crashed" if "crashed" in o else "reported" if o["reports"] else "clean"))
             if o.get("timeout"):
                 timeouts.append({"via": case["via"], "file": f})
